@@ -58,7 +58,11 @@ fn history<const K: usize>(rng: &mut Rng, steps: usize) -> String {
             let p = pick_idx(rng);
             let l = rng.below(K);
             write!(out, "rm {} {} | ", p, l).unwrap();
-            match catch_unwind(AssertUnwindSafe(|| t.try_remove_child(p, l))) {
+            // the panicking spelling `remove_child` for half of the calls that are valid (it is `try_remove_child`
+            // plus `expect`: same effect, same returned value)
+            let valid = l < K && t.contains(p) && t.child(p, l).is_ok();
+            let via_expect = valid && rng.chance(1, 2);
+            match catch_unwind(AssertUnwindSafe(|| if via_expect { Ok(t.remove_child(p, l)) } else { t.try_remove_child(p, l) })) {
                 Ok(Ok(v)) => write!(out, "ok {} ", v).unwrap(),
                 Ok(Err(e)) => write!(out, "err {} ", err_name(&e)).unwrap(),
                 Err(_) => out.push_str("panic "),
